@@ -110,6 +110,24 @@ def run(tier, seed):
     nd = len(directed) if tier != "quick" else 40
     rsel = random.Random(seed * 31 + 20)
     directed = rsel.sample(directed, nd)
+    # long chains of types referring to each other by name (6-9 deep), every record with fields whose default is
+    # spelled differently in JSON than as a datum (bytes, fixed, a record default, NaN is not used): whatever the
+    # generator does at depth, its values are data, not JSON defaults
+    for depth in (6, 7, 9):
+        fields_last = [{"name": "raw", "type": "bytes", "default": "\u00ff\u0001"}, {"name": "n", "type": "int", "default": 3}]
+        chain = {"type": "record", "name": "L%d" % depth, "fields": fields_last}
+        types = [chain]
+        for lvl in range(depth - 1, -1, -1):
+            types.append({"type": "record", "name": "L%d" % lvl, "fields": [
+                {"name": "raw", "type": "bytes", "default": "\u00fe"},
+                {"name": "sig", "type": {"type": "fixed", "name": "Sig%d" % lvl, "size": 2}, "default": "ab"},
+                {"name": "next", "type": "L%d" % (lvl + 1)}]})
+        # definitions first (deepest first), then the root refers to L0 by name
+        root = {"type": "record", "name": "ChainRoot%d" % depth, "fields": [{"name": "defs", "type": ["null"] + types, "default": None},
+                                                                            {"name": "head", "type": "L0"}]}
+        directed.append(root)
+    directed.append({"type": "array", "items": {"type": "record", "name": "Node", "fields": [
+        {"name": "raw", "type": "bytes", "default": "\u00ff"}, {"name": "next", "type": ["null", "Node"], "default": None}]}})
     for i in range(scale(tier, 500) + len(directed)):
         g = gen.Gen(seed * 20000003 + i, logical=(i % 3 == 0), bytes_defaults=False, max_depth=2 if i % 2 else 3)
         try:
